@@ -160,7 +160,7 @@ theorem readHandshake_no_panic (inh : Kind → Bytes → Bool) (isClient vers13 
     obtain ⟨b', hb⟩ := idx_ok hand 2 (by omega)
     obtain ⟨c, hc⟩ := idx_ok hand 3 (by omega)
     simp only [ht, ha, hb, hc]
-    generalize (if (haveVers && t == typeCertificate) = true then maxHandshakeCert else maxHandshake) = limit
+    generalize (if (haveVers && (t == typeCertificate || t == typeCompressedCert)) = true then maxHandshakeCert else maxHandshake) = limit
     by_cases h1 : a * 65536 + b' * 256 + c > limit
     · simp [h1]
     · simp only [h1, if_false]
@@ -170,13 +170,17 @@ theorem readHandshake_no_panic (inh : Kind → Bytes → Bool) (isClient vers13 
         exact unmarshalMsg_no_panic inh isClient vers13 (hand.take (4 + (a * 65536 + b' * 256 + c)))
           (by simp; omega)
 
-theorem decompressAlloc_eq (m : CompCert) : decompressAlloc m = .ok (m.ulen + 4) := by
+theorem decompressAlloc_eq (m : CompCert) :
+    decompressAlloc m = if m.ulen > maxHandshakeCert then .ok none else .ok (some (m.ulen + 4)) := by
   unfold decompressAlloc
-  obtain ⟨v0, h0⟩ := idx_ok (List.replicate (m.ulen + 4) 0) 0 (by simp)
-  obtain ⟨v1, h1⟩ := idx_ok (List.replicate (m.ulen + 4) 0) 1 (by simp)
-  obtain ⟨v2, h2⟩ := idx_ok (List.replicate (m.ulen + 4) 0) 2 (by simp)
-  obtain ⟨v3, h3⟩ := idx_ok (List.replicate (m.ulen + 4) 0) 3 (by simp)
-  simp [h0, h1, h2, h3, sliceFrom]
+  by_cases h : m.ulen > maxHandshakeCert
+  · simp [h]
+  · simp only [h, if_false]
+    obtain ⟨v0, h0⟩ := idx_ok (List.replicate (m.ulen + 4) 0) 0 (by simp)
+    obtain ⟨v1, h1⟩ := idx_ok (List.replicate (m.ulen + 4) 0) 1 (by simp)
+    obtain ⟨v2, h2⟩ := idx_ok (List.replicate (m.ulen + 4) 0) 2 (by simp)
+    obtain ⟨v3, h3⟩ := idx_ok (List.replicate (m.ulen + 4) 0) 3 (by simp)
+    simp [h0, h1, h2, h3, sliceFrom]
 
 theorem insertAt_length {α : Type} (xs : List α) (i : Nat) (c : α) : (insertAt xs i c).length = xs.length + 1 := by
   simp [insertAt]; omega
